@@ -21,6 +21,8 @@ type c09scn struct {
 	invalid bool     // must fail loudly
 	expect  []string // for valid scenarios: sorted "srcpkg|iface|struct"
 	args    []string
+	env     []string // extra environment of the run
+	open    bool     // the outcome is left open: only "no unrecovered panic" is decided
 }
 
 func C09(c *core.Ctx) error {
@@ -251,6 +253,22 @@ func C09(c *core.Ctx) error {
 	// root-level and file-level faults
 	add("unknown configuration key at the top level", true, func(root core.M, pcs, ics []core.M, files map[string]string, s *c09scn) { root["no-such-key"] = true })
 	add("unknown template at the top level", true, func(root core.M, pcs, ics []core.M, files map[string]string, s *c09scn) { root["template"] = "nosuchstyle" })
+	// boolean parameters given through the environment, in every letter case: the documented spellings mean what
+	// they say, no spelling makes mockery panic
+	for _, v := range []string{"true", "True", "TRUE", "false", "False", "FALSE", "tRue", "trUE", "fAlse", "FALSe", "t", "1", "yes", ""} {
+		v := v
+		for _, name := range []string{"MOCKERY_ALL", "MOCKERY_FORCE_FILE_WRITE", "MOCKERY_RECURSIVE"} {
+			name := name
+			add(fmt.Sprintf("%s=%q in the environment", name, v), false, func(root core.M, pcs, ics []core.M, files map[string]string, s *c09scn) {
+				s.env = []string{name + "=" + v}
+				lower := strings.ToLower(v)
+				s.open = !(v == lower || v == strings.ToUpper(v) || v == strings.ToUpper(v[:1])+lower[1:]) || (lower != "true" && lower != "false")
+				if name == "MOCKERY_FORCE_FILE_WRITE" {
+					delete(root, "force-file-write")
+				}
+			})
+		}
+	}
 	// two mocks share a file: whichever of them names the unknown formatter, the run is invalid
 	for _, which := range []string{"IA", "IA2"} {
 		which := which
@@ -422,7 +440,7 @@ func C09(c *core.Ctx) error {
 			return
 		}
 		defer m.Remove()
-		env := []string{}
+		env := append([]string{}, s.env...)
 		if order == "reversed" {
 			env = append(env, "VERIF_MO_REVERSE=1")
 		}
@@ -431,7 +449,7 @@ func C09(c *core.Ctx) error {
 		c.Ev.Add("evaluations", 1)
 		c.Ev.Distinct("states", s.id+"/"+order)
 		id := s.id + " [map order " + order + "]"
-		replay := map[string]any{"scenario": s.id, "order": order, "files": files, "exit": r.Exit, "stderr": firstN(r.Stderr, 700)}
+		replay := map[string]any{"scenario": s.id, "order": order, "files": files, "exit": r.Exit, "stderr": firstN(r.Stderr, 700), "env": s.env}
 		if core.ResourceFailure(r) {
 			c.Skip("%s: run timed out or was killed", s.id)
 			return
@@ -447,7 +465,9 @@ func C09(c *core.Ctx) error {
 			}
 		}
 		sort.Strings(got)
-		if s.invalid {
+		if s.open {
+			// nothing further to decide
+		} else if s.invalid {
 			if r.Exit == 0 {
 				c.Report("exit0:"+s.id, id+": invalid/unsatisfiable input but mockery exited 0 (mocks written: "+strings.Join(got, ", ")+")", replay)
 				return
@@ -470,7 +490,11 @@ func C09(c *core.Ctx) error {
 		}
 		mu.Lock()
 		done++
-		classes[fmt.Sprintf("invalid=%v exit=%d", s.invalid, r.Exit)]++
+		if s.open {
+			classes[fmt.Sprintf("outcome left open exit=%d", r.Exit)]++
+		} else {
+			classes[fmt.Sprintf("invalid=%v exit=%d", s.invalid, r.Exit)]++
+		}
 		mu.Unlock()
 		if j%37 == 0 {
 			c.Ev.Sample(map[string]any{"scenario": s.id, "order": order, "exit": r.Exit, "diagnostic": firstN(lastErrLine(r.Stderr), 160)})
@@ -481,6 +505,6 @@ func C09(c *core.Ctx) error {
 	c.Ev.Set("outcome_classes", classes)
 	c.Ev.Set("cases", len(scns))
 	c.Ev.Set("exhaustive", done == len(scns)*2)
-	c.Ev.Set("rule", "a valid 3-package configuration is perturbed by one fault at a time, the fault placed in each of the three packages and, where it can be written there, at package and interface level: missing listed interface (alone and with the package's interfaces selected through all / include-interface-regex / recursive at package or top level), missing package, type/syntax error, unknown template/formatter/key, unreadable / unparsable / failing template, schema-rejected template-data, cyclic and malformed templated values, invalid regexes, output the formatter rejects, output path occupied, existing file without force, conflicting mocks for one file (different source packages incl. same-named ones, pkgname, template), root-level and config-file-level faults; plus valid-but-unusual inputs (local types, blank-named type declarations, build tags, test-only files, empty / non-Go / test-only / nested-module directories under a recursive root, YAML-hostile interface names, go.mod spellings). Every scenario runs under the sorted and the reversed map iteration order (instrumented binary). Invalid => non-zero exit with a diagnostic; valid => exit 0 and exactly the configured mocks; never a panic trace; distinct_nontrivial = invalid scenarios rejected")
+	c.Ev.Set("rule", "a valid 3-package configuration is perturbed by one fault at a time, the fault placed in each of the three packages and, where it can be written there, at package and interface level: missing listed interface (alone and with the package's interfaces selected through all / include-interface-regex / recursive at package or top level), missing package, type/syntax error, unknown template/formatter/key, unreadable / unparsable / failing template, schema-rejected template-data, cyclic and malformed templated values, invalid regexes, output the formatter rejects, output path occupied, existing file without force, conflicting mocks for one file (different source packages incl. same-named ones, pkgname, template), root-level and config-file-level faults; plus valid-but-unusual inputs (local types, blank-named type declarations, build tags, test-only files, empty / non-Go / test-only / nested-module directories under a recursive root, YAML-hostile interface names, go.mod spellings, boolean parameters spelled in every letter case in the environment). Every scenario runs under the sorted and the reversed map iteration order (instrumented binary). Invalid => non-zero exit with a diagnostic; valid => exit 0 and exactly the configured mocks; never a panic trace; distinct_nontrivial = invalid scenarios rejected")
 	return nil
 }
